@@ -1516,7 +1516,16 @@ func instantiateQuant(t *Term, idx []*Term) *Term {
 				r = Bool(pos)
 			}
 		case "exists":
-			r = Bool(pos)
+			if !pos && len(t.qvars) == 1 && t.qvars[0].sort == BV(64) && !hasQuant(t.args[0], memo) {
+				// a negated existential is a universal: any witness among the index terms will do
+				var insts []*Term
+				for _, x := range idx {
+					insts = append(insts, Subst(t.args[0], map[int]*Term{t.qvars[0].id: x}))
+				}
+				r = Or(insts...)
+			} else {
+				r = Bool(pos)
+			}
 		case "and":
 			as := make([]*Term, len(t.args))
 			for i, a := range t.args {
